@@ -1136,6 +1136,23 @@ def load_corpus(prop):
     return out
 
 
+def generated_sexp(en, decl):
+    """(generated …): the const declaration of T's generated file as a re-run finds it in the package:
+    `const _<t>_max = A | B | …` (no type, a value, constants of type T through their operands)"""
+    v = 0
+    for _, x in decl:
+        v |= x
+    return ["generated", ["b", ["s", ["n", Q("_max")], ["e", Q(en["T"])], ["v", str(v)]]]]
+
+
+def last_rc(runs):
+    """exit status of a sequence of shoot runs over the same package: the first failure, else 0"""
+    for r in runs:
+        if r["rc"] != 0:
+            return r["rc"]
+    return 0
+
+
 def generated_files(written):
     return {rel: content for rel, content in written.items() if ".shootenum" in rel and rel.endswith(".go")}
 
@@ -1512,3 +1529,89 @@ def c01_leg(ctx, res, n):
                 v.setdefault("detail", c.get("detail"))
                 v.setdefault("sources", c.get("files"))
     return len(cases)
+
+
+# ------------------------------------------------------------------------------------------------
+# source facts of internal/enumer for the proof-side anchors (Props/C04Facts.lean)
+# ------------------------------------------------------------------------------------------------
+
+def _strip_go(src):
+    """comments and string / rune literals blanked out (same length), so that braces can be matched"""
+    out = []
+    i, n = 0, len(src)
+    while i < n:
+        c = src[i]
+        if src.startswith("//", i):
+            j = src.find("\n", i)
+            j = n if j < 0 else j
+            out.append(" " * (j - i))
+            i = j
+        elif src.startswith("/*", i):
+            j = src.find("*/", i + 2)
+            j = n if j < 0 else j + 2
+            out.append(re.sub(r"[^\n]", " ", src[i:j]))
+            i = j
+        elif c in "\"'`":
+            j = i + 1
+            while j < n and src[j] != c:
+                if src[j] == "\\" and c != "`":
+                    j += 1
+                j += 1
+            out.append(c + re.sub(r"[^\n]", " ", src[i + 1:j]) + c)
+            i = j + 1
+        else:
+            out.append(c)
+            i += 1
+    return "".join(out)
+
+
+def enum_source_facts(repo=None):
+    """[(method of *enumer.Generator, x, y)] for every selector `r.x.y` on the receiver r in the method bodies (y = "" for a bare
+    `r.x`, "()" for a call `r.x(`), reads, writes and calls alike, sorted"""
+    d = os.path.join(repo or core.REPO, "internal", "enumer")
+    facts = set()
+    for fn in sorted(os.listdir(d)):
+        if not fn.endswith(".go") or fn.endswith("_test.go"):
+            continue
+        src = _strip_go(open(os.path.join(d, fn)).read())
+        for m in re.finditer(r"func \((\w+) \*Generator\) (\w+)\(", src):
+            recv, name = m.group(1), m.group(2)
+            k = src.find("{", src.find(")", m.end()))
+            # the body starts at the first `{` after the signature's result list: skip to the line's last `{`
+            eol = src.find("\n", m.end())
+            k = src.rfind("{", m.end(), eol)
+            depth, j = 0, k
+            while j < len(src):
+                if src[j] == "{":
+                    depth += 1
+                elif src[j] == "}":
+                    depth -= 1
+                    if depth == 0:
+                        break
+                j += 1
+            body = src[k:j]
+            for s in re.finditer(r"(?<![\w.])%s\.([A-Za-z_]\w*)(?:\.([A-Za-z_]\w*))?" % re.escape(recv), body):
+                a, b = s.group(1), s.group(2)
+                after = body[s.end(1):s.end(1) + 1]
+                facts.add((name, a, "()" if after == "(" else (b or "")))
+    return sorted(facts)
+
+
+def regen_enum_facts():
+    """lean/ShootVerif/Gen/EnumFacts.lean, regenerated from the CURRENT source (core.REPO) whenever c04 / c12 / c14 are imported"""
+    facts = enum_source_facts()
+    lines = ["-- REGENERATED on every C04 / C12 / C14 check run by tools/vlib/enumgen.py (regen_enum_facts) from /repo/internal/enumer. Do not edit.",
+             "namespace ShootVerif.EnumFacts",
+             "/-- every selector on the receiver in the body of every method of enumer.Generator: (method, x, y) for `g.x.y`,",
+             "    y = \"\" for a bare `g.x`, y = \"()\" for a call `g.x(…)` -/",
+             "def recvSelectors : List (String × String × String) := ["]
+    lines += ["  (%s, %s, %s)%s" % (_json.dumps(a), _json.dumps(b), _json.dumps(c), "," if k < len(facts) - 1 else "") for k, (a, b, c) in enumerate(facts)]
+    lines += ["]", "end ShootVerif.EnumFacts", ""]
+    text = "\n".join(lines)
+    path = os.path.join(core.LEAN, "ShootVerif", "Gen", "EnumFacts.lean")
+    old = open(path).read() if os.path.exists(path) else None
+    if old != text:
+        with core.lean_lock():
+            with open(path, "w") as f:
+                f.write(text)
+    return path
